@@ -478,8 +478,28 @@ def run():
     shapes = shapes_for_tier()
     random.Random(seed()).shuffle(shapes)
     t0 = time.time()
-    with multiprocessing.Pool(14, initializer=worker_init, initargs=(mir_path, ctx.srcdir)) as pool:
-        results = pool.map(check_regex_shape, shapes, chunksize=2)
+    # wall-clock budget for the symbolic execution of all shapes: a change that makes the paths of get_fixed_prefix explode must
+    # end in "inconclusive (time budget)" - with whatever counterexamples were found until then still replayed and reported - not in
+    # a check that never returns (normally the shapes take 3-4 minutes)
+    budget = float(os.environ.get("VERIF_C16_BUDGET_S", "1500" if tier() == "quick" else "7200"))
+    results = []
+    pool = multiprocessing.Pool(14, initializer=worker_init, initargs=(mir_path, ctx.srcdir))
+    try:
+        it = pool.imap_unordered(check_regex_shape, shapes)          # (chunksize 1: the iterator then supports next(timeout))
+        for _ in range(len(shapes)):
+            left = budget - (time.time() - t0)
+            if left <= 0:
+                break
+            try:
+                results.append(it.next(timeout=left))
+            except multiprocessing.TimeoutError:
+                break
+    finally:
+        pool.terminate()
+        pool.join()
+    if len(results) < len(shapes):
+        results.append({"shape": ("<time budget>",), "cex": [], "error": "time budget of %d s exceeded: %d of %d regex shapes decided" % (budget, len(results), len(shapes)),
+                        "queries": 0, "paths": 0})
     wall = time.time() - t0
     cex = [dict(c, shape=r["shape"]) for r in results for c in r["cex"]]
     errors = [r for r in results if r["error"]]
